@@ -76,6 +76,8 @@ HARNESSES = [
           bounds="closed-form oracle; real lib/lk7_decoder.c (64 KiB ring): arbitrary ring, symbolic position, distance codes 0..31, copy length 3..16"),
     cmd_h("closed.lh7", ["REAL_LH7", "LENMAX=16"], 16, flags=["--arrays-uf-always"], tier="thorough", timeout=1800, mem_gb=6,
           bounds="closed-form oracle; real lib/lh7_decoder.c (128 KiB ring): arbitrary ring, symbolic position, offset symbol 0..17, copy length 3..16"),
+    dict(cmd_h("step.so.hb4", ["HB=4", "OB=3", "STUB_OFFSET"], 256, step=True, timeout=300), rename_defs=rn(dict(RFT, **{"lib/lh_new_decoder.c": ["output_byte", "read_offset_code"]}))),
+    dict(cmd_h("step.so.hb6", ["HB=6", "OB=3", "STUB_OFFSET"], 256, step=True, timeout=300), rename_defs=rn(dict(RFT, **{"lib/lh_new_decoder.c": ["output_byte", "read_offset_code"]}))),
     cmd_h("step.hb4", ["HB=4", "OB=3"], 256, step=True, timeout=300,
           bounds="byte-at-a-time oracle; template at HISTORY_BITS 4: window, position, code (literal / every length 3..256), offset symbol 0..4, extra bits all symbolic; ring wraps up to 16 times"),
     cmd_h("step.hb6", ["HB=6", "OB=3"], 256, step=True, timeout=300,
